@@ -272,7 +272,7 @@ def e2e_case(binary, case):
     return fails
 
 
-LIFE_SERIES = {"s1": ("cpu", {"a": "bc"}), "s2": ("cpu", {"ab": "c"}), "s3": ("cpu", {"bc": "a"}), "s4": ("cpua", {"a": "bc"})}
+LIFE_SERIES = {"s1": ("cpu", {"a": "bc"}), "s2": ("cpu", {"ab": "c"}), "s3": ("cpu", {"bc": "a"}), "s4": ("mem", {"a": "bc"})}     # "cpu" and "mem" live in the same shard (one tags tree holder)
 LIFE_GROUPS = [["s1", "s2", "s3"], ["s4"]]
 
 
@@ -314,6 +314,10 @@ def lifecycle_case(binary, case):
                 dr.ok("mblockflush")
             elif op == "segrotate":
                 dr.ok("msizerotate", block_bytes=1, seg_bytes=1)
+                # the query side lists the rotated segment at its next metadata refresh (every 5 s; the window in between
+                # is C11's subject): continue after it, so that the following puts and checks see the state users live in
+                # for the rest of the day - rotated and open segments side by side under one tags tree holder
+                time.sleep(6)
                 rotated_at = time.time()
             elif op == "restart":
                 dr.ok("mrotate")
@@ -332,21 +336,28 @@ def lifecycle_case(binary, case):
                             forms.append(name + "{" + ",".join('%s="%s"' % kv for kv in sorted(tags.items())) + "}")
                         if sel in LIFE_GROUPS:
                             forms.append(LIFE_SERIES[sel[0]][0])
+                            # the same group selected by a regular expression on the metric name (the engine reports such
+                            # series under the name "*")
+                            forms.append('{__name__=~"%s[%s]"}' % (LIFE_SERIES[sel[0]][0][:-1], LIFE_SERIES[sel[0]][0][-1]))
                         ws, we = T0 + ans["a"] * step, T0 + ans["b"] * step + step - 1
                         exp = {}
                         for m, t in ans["expect"]:
                             name, tags = LIFE_SERIES[m]
                             exp.setdefault(gid_of({"name": name, "tags": tags}), {})[ts_of(m, t)] = "%016x" % bits_of(m, t)
                         for text in forms:
+                            if text.startswith("{__name__"):
+                                exp_ = {"*" + g[g.index("{"):]: v for g, v in exp.items()}
+                            else:
+                                exp_ = exp
                             r = dr.ok("mquery", promql=text, start=ws, end=we, step=1)
                             if "qerr" in r:
                                 bad.append(("query-error", "step %d: %s over [%d,%d]: %s" % (k, text, ws, we, r["qerr"])))
                                 continue
                             got = {g: {p[0]: p[1] for p in pts} for g, pts in r.get("series", {}).items()}
-                            if got != exp:
-                                miss = sorted(g for g in exp if g not in got)
-                                extra = sorted(g for g in got if g not in exp)
-                                diff = [(g, sorted(set(exp[g].items()) ^ set(got[g].items()))[:3]) for g in exp if g in got and exp[g] != got[g]]
+                            if got != exp_:
+                                miss = sorted(g for g in exp_ if g not in got)
+                                extra = sorted(g for g in got if g not in exp_)
+                                diff = [(g, sorted(set(exp_[g].items()) ^ set(got[g].items()))[:3]) for g in exp_ if g in got and exp_[g] != got[g]]
                                 kind = "series-missing" if miss else "series-unexpected" if extra else "datapoints"
                                 bad.append((kind, "step %d (%s): %s over window [%d,%d] (model window [%d,%d]): series missing %s, unexpected %s, differing %s" % (
                                     k, " ".join(x["op"] for x in beh["steps"][:k]), text, ws, we, ans["a"], ans["b"], miss[:3], extra[:3], diff[:2])))
@@ -557,6 +568,16 @@ def run(chk):
         for i, o in enumerate(ops):
             if o in ("restart", "segrotate", "blockflush") and "put" in ops[i + 1:]:
                 sc_ += 2
+        # a metric name / a series that appears for the first time after a segment rotation or a restart, next to older ones
+        for kind in ("segrotate", "restart"):
+            if kind in ops:
+                i = ops.index(kind)
+                before = set(x["s"] for x in b["steps"][:i] if x["op"] == "put")
+                after = set(x["s"] for x in b["steps"][i + 1:] if x["op"] == "put")
+                if before and after - before:
+                    sc_ += 3
+                    if any(g and not (set(g) & before) and (set(g) & after) for g in LIFE_GROUPS):
+                        sc_ += 3
         return sc_
     life.sort(key=lambda b: (-life_score(b), json.dumps(b, sort_keys=True)))
     nl = 16 if quick else 160
